@@ -111,9 +111,20 @@ def _sl(text, p):
     return text[p[1] : p[2]]
 
 
+class DenoteReject(Exception):
+    """The text matches the meta-grammar but pest's consumer rejects it (a validation-level error)."""
+
+
+U32_MAX = 2**32 - 1
+
+
 def _num(text, p) -> int:
+    """A repeat count: pest parses it as u32 and reports 'number cannot overflow u32' otherwise."""
     s = _sl(text, p)
-    return int(s) if isinstance(s, str) else s.__int__()
+    v = int(s) if isinstance(s, str) else s.__int__()
+    if v > U32_MAX:
+        raise DenoteReject("number cannot overflow u32")
+    return v
 
 
 def denote(tree, text):
